@@ -858,6 +858,33 @@ def loss_rate_shape(cx, iid):
         want = sorted([(0, "0", "-1 + " + N), (1, "1", N)])
         if sw != want_w or sa is None or sb is None or sorted([sa, sb]) != want:
             inst.violation(b.path, "interval sums", "the weighted interval sums are not I_tot0 = sum_{e=0}^{n-2} l_e w_e and I_tot1 = sum_{e=1}^{n-1} l_e w_(e-1) with W_tot = sum_{i=0}^{n-2} w_i: got W %s, I %s and %s" % (sw, sa, sb))
+        # which formula applies when: 0 for an empty history, 1/l_0 for a single interval, the weighted mean from two on;
+        # the history is cut to len(WEIGHTS) + 1 intervals (the open one plus eight closed ones)
+        fa = cx.fa(b)
+        seen = set()
+        for dloc, kind, node in b.defs.get(0, []):
+            v = show(b.rvalue_expr(node["rv"])) if kind == "assign" else show(b.call_expr(node))
+            alts = fa.at(dloc) or []
+            if v in ("0.0", "0"):
+                case, need = "empty", [r"eq\(0,VecDeque::len\(arg1\.entries\)\)"]
+            elif "f64::max(" in v:
+                case, need = "general", [r"lt\(1,VecDeque::len\(arg1\.entries\)\)"]
+            else:
+                case, need = "single", [r"le\(VecDeque::len\(arg1\.entries\),1\)", r"ne\(0,VecDeque::len\(arg1\.entries\)\)"]
+                if not re.fullmatch(r"div\((.*WEIGHTS\[0\]),mul\((cast<f64>\(arg1\.entries\[0\]\.length\),\1|\1,cast<f64>\(arg1\.entries\[0\]\.length\))\)\)", v):
+                    inst.violation(b.path, "single-interval loss rate", "with one loss interval the loss rate is `%s`, expected w_0 / (l_0 * w_0)" % v[:140], at=b.span_at(dloc))
+            seen.add(case)
+            from mirlib import alt_satisfies
+            inst.site(b, dloc, "loss rate, %s history" % case)
+            if not alts or any(not alt_satisfies(a, need) for a in alts):
+                inst.violation(b.path, "loss-rate case " + case, "the %s-history formula of compute_loss_rate is reachable outside its case (%s)" % (case, " and ".join(x.replace("\\", "") for x in need)), at=b.span_at(dloc))
+        if seen != {"empty", "general", "single"} and b.defs.get(0):
+            inst.violation(b.path, "loss-rate cases", "compute_loss_rate does not distinguish the empty, single-interval and general history (found %s)" % sorted(seen))
+        pn = R.body("LossIntervalQueue::push_nack")
+        tr = [show(pn.call_expr(t)) for l, t in pn.calls("VecDeque::truncate")]
+        inst.site(pn, None, "history cut: %s" % tr)
+        if tr != ["VecDeque::truncate(arg1.entries,%d)" % (len(ws) + 1)]:
+            inst.violation(pn.path, "history length", "push_nack cuts the loss history as %s, expected truncate(%d) = the open interval plus one per weight" % (tr, len(ws) + 1))
 
 
 def active_timeout_sweep(cx, iid):
@@ -1227,6 +1254,18 @@ def writer_loops_unconditional(cx, iid):
                         inst.violation(b.path, "element skipped", "%s can start the next iteration without having added the current element to the frame" % fn.split("::")[-1])
             if not hit:
                 inst.violation(b.path, "element loop", "%s: no `Some(element)` edge found in the loop (anchor)" % fn)
+            # ... and the loop ends only when the list is exhausted: no other way out (a `break` on a count drops the tail)
+            for x in sorted(L["body"]):
+                for y, lab in b.succ[x]:
+                    if y in L["body"] or not lab or lab[0] != "sw":
+                        if y not in L["body"] and b.term(x)["k"] in ("goto", "switch") and not (lab and lab[0] == "sw"):
+                            inst.violation(b.path, "early exit", "%s leaves its element loop other than at the end of the list" % fn.split("::")[-1], at=b.span_at(Loc(x, 0)))
+                        continue
+                    lits = fa.edge_lits.get((x, y, lab[1]), [])
+                    if b.term(y)["k"] == "unreachable":
+                        continue
+                    if not any(re.fullmatch(r"is\(Iter::next\(var\d+\),None\)", z) for z in lits):
+                        inst.violation(b.path, "early exit", "%s leaves its element loop on `%s`, not at the end of the list: the remaining elements are not serialised" % (fn.split("::")[-1], ", ".join(lits)[:100] or "an unconditional edge"), at=b.span_at(Loc(x, 0)))
 
 
 def syn_constructed_once(cx, iid):
